@@ -537,3 +537,138 @@ def coroutine_linearity_rules(ctx):
     ctx.ob("R-API", "may::sync::atomic_option::AtomicOption", "surface", ok,
            "AtomicOption exposes exactly {none, some, store, take, clear}: a value can only be moved in or moved out (two resumers cannot both obtain the coroutine)" if ok else
            "AtomicOption's inherent API is %s; anything beyond {none, some, store, take, clear} (a getter, a peek, a clone) lets two parties hold the same coroutine" % sorted(ms), None)
+
+# ---------------------------------------------------------------------------------------------------------------------------
+# scoped.rs: the deferred-join chain is walked "transactionally" (seeds C13-3 / C14-3)
+def _cell_fields(f, o):
+    """fields named by an origin, looking through a RefCell::borrow_mut() / Deref(Mut) of the guard"""
+    o = simplify(o)
+    for _ in range(6):
+        while o[0] in ("ref", "deref", "cast"): o = simplify(o[1])
+        if o[0] == "call" and re.search(r"RefCell::(borrow_mut|borrow|get_mut)$|::deref(_mut)?$", o[2] or ""):
+            t = f.term(o[1])
+            if t["args"]: o = simplify(trace_operand(f, t["args"][0])); continue
+        break
+    return all_fields(o)
+
+def _mentions_field(f, o, fld, depth=0):
+    o = simplify(o)
+    if fld in all_fields(o): return True
+    if depth > 5: return False
+    if o[0] == "call":
+        t = f.term(o[1])
+        return any(_mentions_field(f, trace_operand(f, a), fld, depth + 1) for a in t["args"])
+    if o[0] == "phi": return any(_mentions_field(f, a, fld, depth + 1) for a in o[2])
+    if o[0] in ("ref", "deref", "cast", "field", "downcast"): return _mentions_field(f, o[1], fld, depth + 1)
+    return False
+
+def scope_dtor_chain_rules(ctx):
+    """Each deferred destructor joins one scoped coroutine and may re-raise that child's panic out of drop_all; the unwinding then
+    runs Drop for Scope, which calls drop_all again to join the REMAINING children. That only works if, at the moment a dtor runs,
+    the rest of the chain is stored back in `Scope.dtors` - not held in a local of the unwinding frame (where it would be dropped:
+    the remaining JoinHandles are detached and scope() is left while their coroutines still borrow the owner's frame)."""
+    D = "may::scoped::Scope::drop_all"
+    inst = "scope/remainder-parked-before-dtor"
+    f = ctx.fn("R-ORDER", D, inst)
+    if f is None: return
+    FLD = "may::scoped::Scope.dtors"
+    takes = set(); writes = set(); runs = set()
+    for pt in f.points():
+        n = f.node(pt)
+        if f.is_term(pt):
+            if n.get("t") != "call" or not n["args"]: continue
+            nm = callee_name(n) or ""
+            a0 = trace_operand(f, n["args"][0])
+            if re.search(r"option::Option::take$|mem::(take|replace)$|RefCell::(take|replace)$", nm) and FLD in _cell_fields(f, a0): takes.add(pt)
+            if re.search(r"FnOnce>::call_once$|FnOnce::call_once$|FnBox::call_box$", nm) and "may::scoped::DtorChain.dtor" in all_fields(simplify(a0)): runs.add(pt)
+        elif n.get("s") == "=" and n["l"]["p"] and not f.is_cleanup(pt.bb):
+            if FLD in _cell_fields(f, trace_place(f, n["l"])) and _mentions_field(f, trace_rvalue(f, n["rv"], 0, pt), "may::scoped::DtorChain.next"):
+                writes.add(pt)
+    if not takes or not runs:
+        ctx.missing("R-ORDER", D, inst, "take of Scope.dtors (%d) / dtor invocation (%d)" % (len(takes), len(runs))); return
+    r = ctx.an.reach(f, [q for s in takes for q in ctx.an.after(f, s)], blocked=writes)
+    bad = sorted(x for x in runs if x in r)
+    ctx.ob("R-ORDER", D, inst, not bad,
+           "between taking a node out of Scope.dtors and running its dtor, the rest of the chain (`node.next`) is stored back into Scope.dtors, so a dtor that "
+           "re-raises a child's panic leaves the remaining joins to Drop for Scope" if not bad else
+           "drop_all runs a dtor while the rest of the chain is NOT stored in Scope.dtors: when that dtor re-raises a child's panic the remaining joins are dropped "
+           "with the unwinding frame (children detached, scope() left while they still run)", f.where(bad[0] if bad else sorted(runs)[0]),
+           detail=ctx.an.fmt_path(f, ctx.an.path(f, [q for s in takes for q in ctx.an.after(f, s)], bad, blocked=writes)) if bad else None)
+
+
+def park_deadline_sampled_before_arm(ctx):
+    SUB = "<may::park::Park as may::coroutine_impl::EventSource>::subscribe"
+    f = ctx.fn("R-ORDER", SUB, "deadline-recheck/sampled-before-arm")
+    if f is None: return
+    # (seed C08-3) the deadline is sampled BEFORE the timer is armed: deadline <= the timer's expiry, so "the timer fired and found
+    # the slot empty" implies "the deadline has passed" at the re-check. A deadline sampled after add_timer can lie behind it.
+    NOW = Call(r"may::timeout_list::now", transitive=False); ARM = Call(r"may::scheduler::Scheduler::add_timer", transitive=False)
+    bodies = [f] + ctx.prog.closures_of(f)
+    armers = [(g, ctx.an.sites(g, ARM, "must")) for g in bodies]
+    armers = [(g, t) for g, t in armers if t]
+    if not armers:
+        ctx.missing("R-ORDER", SUB, "deadline-recheck/sampled-before-arm", "no add_timer call in Park::subscribe or its closures")
+    else:
+        bad = None
+        for g, ts in armers:
+            ns = ctx.an.sites(g, NOW, "must")
+            if ns:
+                r = ctx.an.reach(g, [Point(0, 0)], blocked=ns)
+                if any(t in r for t in ts): bad = g.where(sorted(ts)[0])
+            elif g is f:
+                bad = f.where(sorted(ts)[0])
+            else:
+                # the closure arms without sampling: a sample must precede the combinator that runs it
+                inv = [pt for pt in ctx.an.sites(f, Call(r"may::scheduler::Scheduler::add_timer", transitive=True), "may")]
+                nm = ctx.an.sites(f, Call(r"may::timeout_list::now", transitive=True), "must")
+                r = ctx.an.reach(f, [Point(0, 0)], blocked=nm)
+                if not inv or any(t in r for t in inv): bad = g.where(sorted(ts)[0])
+        ctx.ob("R-ORDER", SUB, "deadline-recheck/sampled-before-arm", bad is None,
+               "the re-check deadline is sampled (now()) before add_timer arms the timer" if bad is None else
+               "Park::subscribe arms the timer before it samples the deadline: a stall between the two puts the deadline behind the timer's expiry, the timer "
+               "fires on the empty slot, the re-check still sees `now < deadline` and nobody delivers the timeout", bad)
+
+
+def no_nested_run_under_guard(ctx, rule="R-ORDER"):
+    """(F18) A subscriber that runs a coroutine NESTED on the worker's stack (`run_coroutine(co)` inside `subscribe`) must have
+    released its delay-drop guard (wait_kernel) first: the resumed coroutine may finish and drop the very object the guard protects,
+    and `Drop` then waits - in thread context, on top of the frame that owns the guard - for a flag that can never be cleared."""
+    n = 0
+    for f in ctx.prog.fns.values():
+        if not f.id.startswith(("may::", "<may::")): continue
+        guards = [pt for pt in f.points() if f.is_term(pt) and f.node(pt)["t"] == "call" and (callee_name(f.node(pt)) or "").endswith("::delay_drop")]
+        runs = sorted(ctx.an.sites(f, Call(r"may::coroutine_impl::run_coroutine", transitive=False), "must"))
+        if not guards: continue
+        n += 1
+        if not runs:
+            ctx.ob(rule, f.id, "no-nested-run-under-guard", True, "%s holds a delay-drop guard and resumes no coroutine on top of its own frame" % f.id, f.where(guards[0]))
+            continue
+        rel = set()
+        for pt in f.points():
+            if not f.is_term(pt): continue
+            t = f.node(pt)
+            if t["t"] == "drop" and "DropGuard" in (t.get("ty") or ""): rel.add(pt)
+            if t["t"] == "call" and re.fullmatch(r"(std|core)::mem::drop", callee_name(t) or "") and t["args"]:
+                a = t["args"][0]; pl = a.get("m") or a.get("c")
+                if pl is not None and "DropGuard" in f.locals[pl["l"]]: rel.add(pt)
+        r = ctx.an.reach(f, [q for g in guards for q in ctx.an.after(f, g)], blocked=rel)
+        bad = [x for x in runs if x in r]
+        ctx.ob(rule, f.id, "no-nested-run-under-guard", not bad,
+               "%s releases its delay-drop guard before it resumes a coroutine on top of its own frame" % f.id if not bad else
+               "%s runs a coroutine nested (run_coroutine) while its delay-drop guard is still held: if that coroutine finishes (or parks again) the protected "
+               "object's Drop / next park waits on the worker stack for a flag only the frame below can clear - the worker thread is lost" % f.id,
+               f.where((bad or runs)[0]))
+    if n < 2:
+        ctx.missing(rule, "may::park::DropGuard", "no-nested-run-under-guard", "expected >= 2 subscribers holding a delay-drop guard (park.rs, sync/spsc.rs), found %d" % n)
+
+
+def mpsc_pop_reports_empty_only_when_empty(ctx):
+    """dependency rule (C03 owns it; C05/C10/C11/C12 wait queues and C06/C07 channels rely on it): may_queue::mpsc::Queue::pop returns None
+    only behind `pop_index >= push_index()` - a slot that was reserved by a producer's CAS but not yet written is waited for, never
+    reported as "queue empty" (an unlocker that popped None would hand the lock / permit to nobody)."""
+    MQ = "may_queue::mpsc"; POP = MQ + "::Queue::pop"
+    pidx = is_call_result(re.escape(MQ) + "::Queue::push_index")
+    empty = lambda a: a.kind == "cmp" and ((a.op == "Ge" and pidx(a.b)) or (a.op == "Le" and pidx(a.a)))
+    ctx.guarded(POP, Agg(r"(std|core)::option::Option", "None", transitive=False), empty, "mpsc/none-only-if-empty",
+                "pop returns None only when pop_index >= push_index (a reserved but not yet written slot is waited for, not reported as empty)",
+                pred_label="edge `pop_index >= push_index()`")
